@@ -17,6 +17,13 @@ macro_rules! types {
                 _ => None,
             }
         }
+        /// Some(Some(bytes)) = decoded and re-serialized to bytes (a panic in either step propagates), Some(None) = rejected, None = unknown type
+        pub fn reser_by_name(name: &str, bytes: &[u8]) -> Option<Option<Vec<u8>>> {
+            match name {
+                $(stringify!($t) => Some(<$t>::from_bytes(bytes.to_vec()).ok().map(|v| v.to_bytes())),)*
+                _ => None,
+            }
+        }
     };
 }
 types!(Anchor, AssetName, AssetNames, Assets, AuxiliaryData, BigInt, BigNum, Block, BootstrapWitness, BootstrapWitnesses, Certificate, Certificates, Committee, CommitteeColdResign,
@@ -30,6 +37,57 @@ types!(Anchor, AssetName, AssetNames, Assets, AuxiliaryData, BigInt, BigNum, Blo
     Transaction, TransactionBodies, TransactionBody, TransactionInput, TransactionInputs, TransactionMetadatum, TransactionMetadatumLabels, TransactionOutput, TransactionOutputs,
     TransactionUnspentOutput, TransactionWitnessSet, TransactionWitnessSets, TreasuryWithdrawalsAction, URL, UnitInterval, Update, UpdateCommitteeAction, VRFCert, Value, VersionedBlock, Vkey,
     Vkeywitness, Vkeywitnesses, VoteDelegation, VoteRegistrationAndDelegation, Voter, VotingProcedure, VotingProcedures, VotingProposal, VotingProposals, Withdrawals);
+
+fn wf(b: &[u8]) -> bool { crate::wellformed::item_end(b, 0, 300) == Some(b.len()) }
+
+fn draw_name_bytes<S: Src>(s: &mut S) -> (String, Vec<u8>) {
+    let n = s.u8() as usize;
+    let name: Vec<u8> = (0..n).map(|_| s.u8()).collect();
+    let len = s.u16() as usize;
+    let bytes: Vec<u8> = (0..len).map(|_| s.u8()).collect();
+    (String::from_utf8(name).unwrap(), bytes)
+}
+
+/// second clause of C02 at a byte-preserving root: a value a parser returned serializes again to ONE well-formed CBOR item
+pub fn c02_reser<S: Src>(s: &mut S) {
+    let (name, bytes) = draw_name_bytes(s);
+    let r = reser_by_name(public_name(&name), &bytes);
+    s.assume(r.is_some());
+    if let Some(Some(out)) = r {
+        assert!(wf(&out), "{}::from_bytes accepts {:02x?} but the value re-serializes to malformed CBOR {:02x?}", name, bytes, out);
+    }
+}
+
+/// the lemma behind it: a decoder that accepts has been given one well-formed item (fails when malformed bytes are ACCEPTED)
+pub fn c02_lenient<S: Src>(s: &mut S) {
+    let (name, bytes) = draw_name_bytes(s);
+    let r = decode_by_name(public_name(&name), &bytes);
+    s.assume(r.is_some());
+    assert!(!(r == Some(true) && !wf(&bytes)), "{}::from_bytes accepts the malformed CBOR {:02x?}", name, bytes);
+}
+
+/// development aid (not run by a check): which (type, mutation class) of the samples is accepted although malformed
+pub fn c02_lenient_scan<S: Src>(_s: &mut S) {
+    for (name, sample) in samples() {
+        let mut seen: Vec<&str> = Vec::new();
+        for i in 0..sample.len() {
+            let b = sample[i];
+            let (major, ai) = (b >> 5, b & 0x1f);
+            let mut muts: Vec<(&str, Vec<u8>)> = Vec::new();
+            if (major == 4 || major == 5) && ai < 23 { let mut m = sample.clone(); m[i] = b + 1; muts.push(("declared-length", m)); }
+            if (major == 4 || major == 5) && ai > 0 && ai < 24 { let mut m = sample.clone(); m[i] = b - 1; muts.push(("declared-length", m)); }
+            if let Some(e) = crate::wellformed::item_end(&sample, i, 300) { let mut m = sample[..i].to_vec(); m.push(0xff); m.extend(&sample[e..]); muts.push(("early-break", m)); }
+            for (class, m) in muts {
+                if seen.contains(&class) || wf(&m) { continue; }
+                if std::panic::catch_unwind(|| decode_by_name(name, &m)).ok() == Some(Some(true)) {
+                    let out = std::panic::catch_unwind(|| reser_by_name(name, &m)).ok().flatten().flatten();
+                    eprintln!("LENIENT {} {} {} reser_wf={}", name, class, m.iter().map(|b| format!("{:02x}", b)).collect::<String>(), out.map(|o| wf(&o)).unwrap_or(false));
+                    seen.push(class);
+                }
+            }
+        }
+    }
+}
 
 /// internal enum / helper types are reached through their public wrapper
 pub fn public_name(n: &str) -> &str {
@@ -286,4 +344,16 @@ pub fn c02_text_battery<S: Src>(_s: &mut S) {
     }
     for f in failures.iter().take(8) { eprintln!("C02-TEXT {}", f); }
     assert!(failures.is_empty(), "{} text helper calls panic on non-ASCII input; first: {}", failures.len(), failures[0]);
+}
+
+/// same draws as c02_decode; fails when the bytes are REFUSED (used to replay "a valid encoding does not decode")
+pub fn c02_accepts<S: Src>(s: &mut S) {
+    let n = s.u8() as usize;
+    let name: Vec<u8> = (0..n).map(|_| s.u8()).collect();
+    let len = s.u16() as usize;
+    let bytes: Vec<u8> = (0..len).map(|_| s.u8()).collect();
+    let name = String::from_utf8(name).unwrap();
+    let r = decode_by_name(public_name(&name), &bytes);
+    s.assume(r.is_some());
+    assert!(r == Some(true), "{}::from_bytes refuses {:02x?}", name, bytes);
 }
